@@ -9,6 +9,7 @@ import (
 	"io"
 	"net"
 	"net/http"
+	"strings"
 	"sync"
 	"time"
 )
@@ -49,6 +50,11 @@ type FakeProxy struct {
 
 	batches chan []string
 	listN   int // list replies so far (their framing rotates)
+	failN   int // failed list calls so far (their kind rotates)
+	// OnListArrive is called when a list call reaches the proxy (before it is answered)
+	OnListArrive func()
+	// OnListFail is called when a list call is about to fail (batch "!fail" pushed by the driver)
+	OnListFail func(kind string)
 
 	mu      sync.Mutex
 	Uploads []*Upload
@@ -98,8 +104,37 @@ func (p *FakeProxy) serve(w http.ResponseWriter, r *http.Request) {
 			p.List(w, r)
 			return
 		}
+		if p.OnListArrive != nil {
+			p.OnListArrive()
+		}
 		select {
 		case ids := <-p.batches:
+			if len(ids) == 1 && strings.HasPrefix(ids[0], "!fail") {
+				// a list call that fails: 503, or the connection closed without an answer
+				p.mu.Lock()
+				p.failN++
+				kind := []string{"503", "close", "500-body"}[p.failN%3]
+				p.mu.Unlock()
+				if p.OnListFail != nil {
+					p.OnListFail(kind)
+				}
+				switch kind {
+				case "close":
+					if hj, ok := w.(http.Hijacker); ok {
+						if c, _, err := hj.Hijack(); err == nil {
+							c.Close()
+							return
+						}
+					}
+					w.WriteHeader(502)
+				case "500-body":
+					w.WriteHeader(500)
+					w.Write([]byte(`["not-a-list"]`))
+				default:
+					w.WriteHeader(503)
+				}
+				return
+			}
 			if p.OnList != nil {
 				p.OnList(ids)
 			}
